@@ -19,6 +19,8 @@ func main() {
 			subC18(flag.Arg(0))
 		case "c06":
 			subC06(flag.Args())
+		case "c19stress":
+			subC19Stress(flag.Args())
 		case "shutdown":
 			subShutdown(flag.Args())
 		case "sched":
